@@ -11,19 +11,25 @@ def plan(tier, seed, kf_ids):
     a = "I9F23"
     F = 23
     one = 1 << F
-    centres = [0, one - 128, one, 2 * one - 128, 4 * one - 128, (1 << 31) - 256, (1 << (F - 8)) - 128, 3 * one, (one >> 1) - 128]
-    centres += [1 << p for p in ((3, 14, 27) if q else range(1, 31, 2))]
-    centres += [rnd.randrange(1, 1 << 31) for _ in range(2 if q else 12)]
+    if q:
+        # 100-300 s per neighbourhood: zero, one, the Err/Ok threshold, the maximum (where l + x/l is largest), one power of two of
+        # each exponent parity, one seeded operand
+        centres = [0, one - 128, (1 << 31) - 256, (1 << (F - 8)) - 128, 1 << 14, 1 << 27, rnd.randrange(1, 1 << 31)]
+    else:
+        centres = [0, one - 128, one, 2 * one - 128, 4 * one - 128, (1 << 31) - 256, (1 << (F - 8)) - 128, 3 * one, (one >> 1) - 128]
+        centres += [1 << p for p in range(1, 31, 2)]
+        centres += [rnd.randrange(1, 1 << 31) for _ in range(12)]
     for c in sorted(set(centres)):
         # Err allowed only when 1/x is not representable: x < 2^-8 (+ margin of one neighbourhood)
         must_ok = c >= (1 << (F - 8))
         jobs.append(acc.sqrt_job("c13", a, a, c, 8, must_ok, 30))
     # unsigned 32-bit type
-    for c in ([one - 128, (1 << 32) - 256] if q else [0, one - 128, (1 << 32) - 256, 1 << 20, 1 << 30]):
+    for c in ([(1 << 32) - 256] if q else [0, one - 128, (1 << 32) - 256, 1 << 20, 1 << 30]):
         jobs.append(acc.sqrt_job("c13", "U9F23", "U9F23", c, 8, c > (1 << (F - 8)) + 512, 30))
     # 64-bit type: single operands and 2^2-neighbourhoods (the 32 dependent 128-bit divisions only fold for (nearly) concrete operands)
-    for x, k in ((1e9, 0), (7.5e7, 2), (3.0, 2)) if q else ((1e9, 0), (1e9, 2), (7.5e7, 2), (2.0 ** 30, 0), (2.0 ** 31 - 1, 0), (3.0, 2), (2.0 ** -20, 0), (1e-9, 0), (12345.678, 2)):
+    for x, k in ((1e9, 0), (2.0 ** 31 - 1, 0)) if q else ((1e9, 0), (1e9, 2), (7.5e7, 2), (2.0 ** 30, 0), (2.0 ** 31 - 1, 0), (3.0, 2), (2.0 ** -20, 0), (1e-9, 0), (12345.678, 2)):
         jobs.append(acc.sqrt_job("c13", "I32F32", "I32F32", int(x * (1 << 32)), k, True, 40, timeout=1800))
+        jobs[-1].prio = 1
     for kf in kf_ids:
         if kf == "c13_sqrt_wide_int":
             jobs.append(acc.sqrt_job("c13", "I96F32", "I96F32", 1 << (94 + 32), 0, True, 40, timeout=1800, kf=kf, tag="kfw_2p94"))
